@@ -3,6 +3,7 @@
 From Coq Require Import ZArith List Bool Arith Lia.
 From CV Require Import Base.Num C13.DepsModel C13.InvModel C13.DepsProofs C13.DepsTables C13.ModuleModel C13.ModuleProofs C13.DepsInv C13.ModuleInv C13.ModuleRooted C13.EnableExcl C13.EnableWitness C13.UserFeatures C13.CrossC08 Gen.GenDeps.
 Import ListNotations.
+Open Scope nat_scope.
 
 (* ---- table theorems, re-checked on every run against the tables dumped from the binary ---- *)
 
